@@ -585,6 +585,8 @@ func runC18(c *Ctx) {
 
 	// ---------------- P2 metadata mapping
 	c.metadataMapping(pMeta)
+	// the equivalentId the metadata reports for an unpublished document is what docutil builds: short-form ids only
+	c.equivalentIDsShortForm("C18.P2")
 }
 
 // mapLiteralRule: in f there is a freshly made map of the named type whose constant-key updates satisfy preds.
